@@ -37,9 +37,10 @@ Cases == {Leaf(k, n) : k \in {"file", "mbox"}, n \in Names}
          \cup {Cont(k, n, ik, m) : k \in {"dir", "zip"}, n \in Names1, ik \in {"file", "dir"}, m \in Inner}
          \cup {Cont("mapdir", n, ik, m) : n \in Names1, ik \in {"file", "dir"}, m \in {x \in Inner : MapOk(x)}}
 
-Init == c \in Cases /\ p \in Views /\ hl \in HLs /\ res = [done |-> FALSE, fail |-> {}]
+Init == c \in Cases /\ p \in Views /\ hl \in HLs /\ res = [done |-> FALSE, scope |-> FALSE, fail |-> {}]
 Compute == /\ ~res.done
-           /\ res' = [done |-> TRUE, fail |-> IF CaseExpressible(p, c) THEN Failing(p, c, hl) ELSE {}]
+           /\ res' = [done |-> TRUE, scope |-> CaseExpressible(p, c),       \* out of scope: names p cannot express
+                    fail |-> IF CaseExpressible(p, c) THEN Failing(p, c, hl) ELSE {}]
            /\ UNCHANGED <<c, p, hl>>
 Spec == Init /\ [][Compute]_vars
 
